@@ -198,6 +198,7 @@ type wcfg struct {
 	CS           session.CounterStorage
 	MS           session.MessageStorage
 	User, Pass   string
+	MinimalTags  bool // Opts.Tags carries only MsgType and MsgSeqNum (the two the library insists on)
 }
 
 type world struct {
@@ -221,6 +222,14 @@ type world struct {
 	ctxDone     bool
 	lastLogonCB *session.LogonSettings
 	onOut       func(m []byte) // called by the writer-loop stand-in for every message it takes off Outgoing()
+}
+
+func optsFor(c wcfg) *session.Opts {
+	o := opts(c.Allowed...)
+	if c.MinimalTags {
+		o.Tags = &messages.Tags{MsgType: 35, MsgSeqNum: 34}
+	}
+	return o
 }
 
 func newWorld(c wcfg) *world {
@@ -252,14 +261,14 @@ func newWorld(c wcfg) *world {
 		if hb == 0 {
 			hb = 30
 		}
-		w.s, err = session.NewInitiatorSession(w.h, opts(c.Allowed...), &session.LogonSettings{
+		w.s, err = session.NewInitiatorSession(w.h, optsFor(c), &session.LogonSettings{
 			TargetCompID: w.peer, SenderCompID: w.self, HeartBtInt: hb, EncryptMethod: "0",
 			Username: c.User, Password: c.Pass, CloseTimeout: c.CloseTimeout,
 		}, cs, ms)
 	} else {
 		w.self, w.peer = "SRV", "CLI"
 		w.h = simplefixgo.NewAcceptorHandler(context.Background(), "35", c.Buf)
-		w.s, err = session.NewAcceptorSession(opts(c.Allowed...), w.h, &session.LogonSettings{
+		w.s, err = session.NewAcceptorSession(optsFor(c), w.h, &session.LogonSettings{
 			LogonTimeout: 30 * time.Second, HeartBtLimits: &session.IntLimits{Min: c.HbMin, Max: c.HbMax}, CloseTimeout: c.CloseTimeout,
 		}, func(r *session.LogonSettings) error {
 			w.lastLogonCB = r
